@@ -212,7 +212,7 @@ def p_c01(q):
 
 def p_c02(q):
     if q:
-        return [mc_router('T'), gen_bfs('O', 4, module='MC_RouterO', consts={'L': 4}, sample=0.4), gen_bfs('O', 3, name='bfsO3', module='MC_RouterO', consts={'L': 4}), gogen('addonly', 80)]
+        return [mc_router('T'), gen_bfs('O', 4, module='MC_RouterO', consts={'L': 4}, sample=0.2), gen_bfs('O', 3, name='bfsO3', module='MC_RouterO', consts={'L': 4}), gogen('addonly', 80)]
     return [mc_router('T'), gen_bfs('O', 4, module='MC_RouterO', consts={'L': 5}), gen_bfs('O', 2, name='bfsO2L6', module='MC_RouterO', consts={'L': 6}),
             gogen('addonly', 2000)]
 
